@@ -249,6 +249,9 @@ func runDialBehaviour(path []*graph.Edge, K int, reach map[int]bool, ips []strin
 	defer prober.Close()
 	g := theDialGate
 	g.reset()
+	if holdDirect < 0 {
+		g.releaseAll() // ungated: the hook passes straight through
+	}
 	type ret struct {
 		c   *quic.Conn
 		err error
@@ -384,6 +387,7 @@ func ConnRaceDial(args []string) {
 	shard := fs.Int("shard", 0, "shard")
 	shards := fs.Int("shards", 1, "shards")
 	kk := fs.Int("k", 3, "paths in the model")
+	free := fs.Int("free", 0, "additional free-running (ungated) dials per shard")
 	maxAllFail := fs.Int("max-allfail", 1, "behaviours with no reachable candidate to run per shard (they take the handshake timeout)")
 	fs.Parse(args)
 	installHooks()
@@ -460,6 +464,31 @@ func ConnRaceDial(args []string) {
 		}
 		outcomes[fmt.Sprintf("reach=%d returned=%v open=%d won=%d", len(reach), o.Returned, o.OpenAtPeer, o.Won)]++
 		res.AddSample(replay, 6)
+	}
+	// free-running dials (no gates): all candidates reachable, the Go scheduler and the loopback
+	// timing decide; the census is the same
+	for i := 0; i < *free; i++ {
+		reach := map[int]bool{}
+		for k := 1; k <= len(ips) && k <= 4; k++ {
+			reach[k] = true
+		}
+		o := runDialBehaviour(nil, len(reach), reach, ips, i%2, -1)
+		if o.Trouble != "" {
+			trouble++
+			continue
+		}
+		res.Behaviours++
+		replay := map[string]any{"reach": len(reach), "scenario": "free-running (ungated) dials", "observed": o.Sched,
+			"returned": o.Returned, "ret_err": o.RetErr, "open_at_listener": o.OpenAtPeer, "accepted_at_listener": o.Accepted, "won_events": o.Won}
+		switch {
+		case o.Returned && (o.OpenAtPeer != 1 || !o.RetOpen):
+			res.AddViolation(map[string]any{"kind": "extra_connection_left_open", "side": "dialer", "open": o.OpenAtPeer, "winners_declared": o.Won}, replay)
+		case !o.Returned && o.OpenAtPeer != 0:
+			res.AddViolation(map[string]any{"kind": "connection_left_open_after_error", "side": "dialer", "open": o.OpenAtPeer}, replay)
+		case !o.Returned:
+			res.AddViolation(map[string]any{"kind": "no_connection_although_reachable", "side": "dialer"}, replay)
+		}
+		outcomes[fmt.Sprintf("free reach=%d returned=%v open=%d accepted=%d", len(reach), o.Returned, o.OpenAtPeer, o.Accepted)]++
 	}
 	if *shard == 0 {
 		// slow direct paths next to a relay-prefixed candidate: the direct handshakes complete late
